@@ -82,4 +82,13 @@ def arrMaxW (a : Array Word) : Option Word :=
     | none => some x
     | some y => some (if y ≤ x then x else y)) none
 
+/-- `pairs[i]` on a `Vec<(u64, usize)>` -/
+def getWU (a : Array (Word × Nat)) (i : Nat) : Outcome (Word × Nat) :=
+  if h : i < a.size then ok a[i] else fault (.panic .index)
+
+/-- `pairs.sort_unstable_by_key(key)`.  Rust's sort is not stable; every use in the crate sorts by a key that is distinct
+for distinct items (the value itself, or its bit reversal), so the result does not depend on stability. -/
+def sortByKeyWU (a : Array (Word × Nat)) (key : Word × Nat → Nat) : Array (Word × Nat) :=
+  (a.toList.mergeSort (fun x y => decide (key x ≤ key y))).toArray
+
 end Sds.Generated
